@@ -281,7 +281,7 @@ PROPS = {
         "claim": "Capsule path only: a DATA payload is a CLOSE_WEBTRANSPORT_SESSION capsule iff type 0x2843 with a complete length; the close carries exactly the big-endian 32-bit code (all 2^32) and the reason bytes unchanged, is accepted iff 4 <= len <= 1028 and UTF-8, and every malformed capsule is a protocol error (H3_DATAGRAM_ERROR), never an application close.",
         "note": "Not decided: ConnectStream::run (clean FIN => (0, ''), reset => protocol failure), Worker::run, From<quinn::ConnectionError> (async / need a quinn::Connection). UTF-8 validation trusted (core::str::from_utf8) beyond 4-byte reasons.",
         "kani": CAPSULE_KANI + DRIVER_CLOSE + [ASYNC_LEAF_KANI[1]],
-        "verus": [],
+        "verus": [V("capsule", pair=("proto", "p_capsule_with_frame"))],
         "not_decided": ["ConnectStream::run", "ApplicationClose from quinn::ConnectionError"],
     },
     "C06": {
@@ -299,7 +299,7 @@ PROPS = {
         "kani": [VARINT_KANI[2], VARINT_KANI[6], VARINT_KANI[7], VARINT_KANI[8], VARINT_KANI[9], FRAME_READ_20, FRAME_READ_4200, FRAME_KIND_KANI[1],
                  STREAM_HEADER_KANI[0], STREAM_KIND_KANI[1], DATAGRAM_KANI[4], CAPSULE_KANI[0], CAPSULE_KANI[1], CAPSULE_KANI[2], CAPSULE_KANI[3]]
                 + QPACK_INT_DEC + QPACK_MISC + [IDS_KANI[4], IDS_KANI[7], SETTING_ID_KANI[2]],
-        "verus": [V("frame", pair=("proto", "p_frame_read_matches_reference_20")), V("qpack_decode", pair=("proto", "p_qpack_decode_integer_n7")), V("settings", pair=("proto", "c_settingid_parse")), V("stream_header", pair=("proto", "p_stream_header_read_matches_reference")), V("frame_async")],
+        "verus": [V("frame", pair=("proto", "p_frame_read_matches_reference_20")), V("qpack_decode", pair=("proto", "p_qpack_decode_integer_n7")), V("settings", pair=("proto", "c_settingid_parse")), V("stream_header", pair=("proto", "p_stream_header_read_matches_reference")), V("frame_async"), V("capsule", pair=("proto", "p_capsule_with_frame"))],
         "not_decided": ["Decoder::decode loop / decode_string / Settings::with_frame under Kani (containers)"],
     },
     "C12": {
@@ -316,7 +316,7 @@ PROPS = {
         "note": "Skip loop: Kani shows base case + one step per typestate (thorough tier, bounded); quick tier exercises one leading unknown frame on well-formed input. Unknown frames above the 4096-byte parse limit are refused like known ones (H3_EXCESSIVE_LOAD). Not decided: driver reactions to unknown unidirectional stream types (async).",
         "kani": FRAME_KIND_KANI + [FRAME_READ_20, FRAME_READ_4200] + STREAM_KANI_QUICK[:4] + STREAM_KANI_THOROUGH[:4]
                 + [STREAM_KIND_KANI[0], SETTING_ID_KANI[0], SETTING_ID_KANI[2], CAPSULE_KANI[0], CAPSULE_KANI[1]],
-        "verus": [V("frame", pair=("proto", "p_frame_read_matches_reference_20")), V("settings", pair=("proto", "c_settingid_parse")), V("frame_async")],
+        "verus": [V("frame", pair=("proto", "p_frame_read_matches_reference_20")), V("settings", pair=("proto", "c_settingid_parse")), V("frame_async"), V("capsule", pair=("proto", "p_capsule_with_frame"))],
         "not_decided": ["unknown unidirectional stream types in the worker", "ConnectStream capsule loop"],
     },
     "C14": {
